@@ -10,7 +10,7 @@ def reccut_stage(ctx, cov):
     if not ok:
         return
     quick = ctx.tier == "quick"
-    outs = fmt_engine.run_fmt(ctx, ["reccut"], 8 if quick else 16, ["workloads=%d" % (4 if quick else 40), "mutations=6"])
+    outs = fmt_engine.run_fmt(ctx, ["reccut"], 8 if quick else 16, ["workloads=%d" % (4 if quick else 40), "mutations=6", "big=%d" % (1100 if quick else 1500)])
     kinds = fmt_engine.merge_hist(outs)
     reported = 0
     for o in outs:
@@ -26,13 +26,31 @@ def reccut_stage(ctx, cov):
                         t = keep_file(ctx, t, "reccut%d" % reported)
                     toks.append(t)
                 violation(ctx, "recovery is not idempotent / restartable: " + " ".join(toks)[:500], "# %s\n" % " ".join(toks), tag="reccut")
+    if not any(k.startswith("reccut-big-image-") and not k.startswith("reccut-big-image-0-") and not k.startswith("reccut-big-image-1-") for k in kinds):
+        violation(ctx, "the large-retirement device (more than 1024 separate extents to retire in one recovery) was not produced by the harness", "kinds: %r\n" % kinds, no_input=True, tag="reccut-big")
+    gl = gd = 0
+    for o in outs:
+        if "crash" in o:
+            continue
+        for op, im, mo in zip(o["ops"], o["impl"], o["model"]):
+            if not op.startswith("fmt gens"):
+                continue
+            gl += 1
+            if im != mo:
+                gd += 1
+                if gd <= 2:
+                    violation(ctx, "correspondence: what the real recovery exposes differs from the generation-level model Feox.Proto.Gens.exposed on a multi-generation TTL device",
+                              "%s\n# implementation: %s\n# model         : %s\n" % (op, im, mo), no_input=True, tag="gens")
+    cov["generation_model_lines"] = gl
+    cov["generation_model_differences"] = gd
     n = kinds.get("reccut-restart", 0)
+    ctx.log("generation-level model: %d devices compared with the real recovery, %d differing" % (gl, gd))
     ctx.log("recovery-cut stage: %d restarted recoveries on multi-generation TTL devices, %d differing" % (n, reported))
     cov["ttl_recovery_restarts"] = n
     cov["ttl_recovery_cut_histogram"] = {k: v for k, v in kinds.items() if k.startswith("reccut")}
 
 MODULE = "Feox.Props.C04"
-THEOREMS = ['Feox.C04.replay_restartable', 'Feox.C04.replay_idempotent', 'Feox.C04.repairs_touch_no_live', 'Feox.C04.loser_retirement_restartable', 'Feox.C04.winner_depends_on_disk_only', 'Feox.Proto.maskRun_idem']
+THEOREMS = ['Feox.C04.recovery_retirement_restartable', 'Feox.C04.expired_first_resurrects', 'Feox.Proto.Gens.winner_filter_of_winners_kept', 'Feox.Proto.Gens.exposed_filter_of_single', 'Feox.C04.replay_restartable', 'Feox.C04.replay_idempotent', 'Feox.C04.repairs_touch_no_live', 'Feox.C04.loser_retirement_restartable', 'Feox.C04.winner_depends_on_disk_only', 'Feox.Proto.maskRun_idem']
 
 
 def run(ctx):
@@ -41,5 +59,5 @@ def run(ctx):
         "TornDetect: a torn journal slot / metadata block fails its checksum or equals the old or the new image (DESIGN.md section 2) — a hypothesis, not an axiom",
         "the abstract disk (Feox.Proto.Disk) is related to bytes by the Lean reader Feox.Fmt.recoverImage, itself compared with the real recovery on every crash image of this run",
         "faults are injected at the I/O hook (synchronous path; io_uring disabled), not in the kernel",
-        "recovery cuts on TTL devices with several generations per key (expired / live / no expiry at recovery time, built by copying a real record to a free block): every write of recovery's own trace is a cut, with all issued writes landed or only the fsynced ones plus a random subset",
+        "recovery cuts on TTL devices with several generations per key (expired / live / no expiry at recovery time, built by copying a real record to a free block): every write of recovery's own trace is a cut, with all issued writes landed or only the fsynced ones plus a random subset; one device per process with more than 1024 separate extents to retire (expired keys interleaved with live ones, the lowest expired winner has an older generation in the last block), cut at every journal write and a sample of the marker writes",
     ], lambda op: op.startswith("fmt recover"), pre_finish=reccut_stage)
